@@ -125,7 +125,7 @@ def _key(case):
     return repr(sorted(case.items(), key=str))
 
 
-def _catching(fn, case, seconds=30):
+def _catching(fn, case, seconds=20):
     try:
         with _guard(seconds), warnings.catch_warnings(), numpy.errstate(all="ignore"):
             warnings.simplefilter("ignore")
@@ -144,14 +144,17 @@ def _drive(ctx, cases, runner, nontrivial, sample):
     """run all cases; record at most 3 failing inputs per cls and keep going, so
     that a known class of failing inputs never hides another one"""
     seen = {}
+    ntimeout = 0
     for case in cases:
         bad, msg, cls, clause = _catching(runner, case)
+        if bad and clause == "noraise" and msg.startswith("timeout"):
+            ntimeout += 1
         ctx.case(key=_key(case), nontrivial=nontrivial(case), sample=sample(case))
         if bad:
             seen[cls] = seen.get(cls, 0) + 1
             if seen[cls] <= 3:
                 ctx.fail_input("ring:%s:%s" % (case["fn"], clause), case, cls=cls, message=msg)
-            if len(seen) >= 8:      # something is thoroughly broken; enough evidence
+            if len(seen) >= 8 or ntimeout >= 3:      # something is thoroughly broken; enough evidence
                 break
     if seen:
         ctx.notes.append("failing inputs by class: %s" % sorted(seen.items()))
@@ -282,16 +285,19 @@ def run_sus(case):
         if v not in pos:
             return True, "drawn value %r is not an element of a" % (v,), cls("sus-foreign-value"), "membership"
         cnt[pos[v]] += 1
-    # exact expected counts
+    # an element of zero weight is never selected (own class: the unchanged library
+    # honours this clause even at its float-edge inputs)
     w = [Fraction(x) for x in p0.tolist()]
+    for i in range(n):
+        if w[i] == 0 and cnt[i] != 0:
+            return (True, "element %d has weight 0 and was selected %d time(s); all counts %r" % (i, cnt[i], cnt),
+                    "sus-zero-weight-selected", "zero-weight")
+    # exact expected counts
     tot = sum(w)
     for i in range(n):
         e = w[i] * k / tot
         lo = e.numerator // e.denominator
         hi = lo if e.denominator == 1 else lo + 1
-        if w[i] == 0 and cnt[i] != 0:
-            return (True, "element %d has weight 0 and was selected %d time(s)" % (i, cnt[i]),
-                    cls("sus-zero-weight-selected"), "zero-weight")
         if cnt[i] != lo and cnt[i] != hi:
             return (True, "element %d (weight %r) selected %d times; expected count %s = %.17g allows only %d or %d; "
                     "all counts %r" % (i, p0[i].item(), cnt[i], e, float(e), lo, hi, cnt),
@@ -829,7 +835,7 @@ def gen_outcross(rng, tier, layouts):
             rows = [flat[r * nparent:(r + 1) * nparent] for r in range(ncross)]
             yield _oc_case(rows, (ncross, nparent), layouts[i % len(layouts)], kinds[i % 2], i)
     # (3) random larger tables, the shape the selection configurations produce (tiled individuals)
-    ncase = 4000 if thorough else 500
+    ncase = 4000 if thorough else 400
     for t in range(ncase):
         nparent = rng.choice([2, 3, 4])
         ncross = rng.randint(1, 7 if thorough else 5)
@@ -865,7 +871,8 @@ def _oc_sample(case):
 @unit(P, "ring[outcross_shuffle multiset, monotone, local optimum]", "R", bounded=True,
       targets=[SAMPLING + ":outcross_shuffle"],
       note="bounded: C-contiguous tables; exhaustive 2x2,3x2,2x3 over 3 values and 2x4 over 2 values (thorough also "
-           "4x2,2x4 over 3, 2x3 over 4 and every 5th 3x3 table over 3); 500 (4000) random tables ncross<=5 (7), nparent in {2,3,4}, "
+           "4x2,2x4 over 3, 2x3 over 4 and every 5th 3x3 table over 3); 400 (4000) random tables "
+           "ncross<=5 (7), nparent in {2,3,4}, "
            "int8/int32/int64; local optimality by brute force over all single exchanges")
 def u_ring_outcross(ctx):
     ctx.rule = ("cross tables as C-contiguous arrays (the layout every caller in the library passes); exhaustive "
